@@ -25,7 +25,7 @@ SAFETY = ("TypeOK C01_OwnResponse C01_NotBlockedAfterTermination C01_ErrorHasCau
 # (config, workers)
 MC = {"quick": [("SSESat_mc_q1.cfg", 1), ("SSESat_mc_q2.cfg", 1), ("SSESat_mc_q3.cfg", 1), ("SSESat_live1.cfg", 1)],
       "thorough": [("SSESat_mc_q1.cfg", 1), ("SSESat_mc_q2.cfg", 1), ("SSESat_mc_q3.cfg", 1), ("SSESat_mc_q4.cfg", 2),
-                   ("SSESat_mc_t1.cfg", 3), ("SSESat_mc_t2.cfg", 3), ("SSESat_live1.cfg", 1), ("SSESat_live2.cfg", 2)]}
+                   ("SSESat_mc_t1.cfg", 3), ("SSESat_mc_t2.cfg", 3), ("SSESat_mc_t3.cfg", 1), ("SSESat_live1.cfg", 1), ("SSESat_live2.cfg", 2)]}
 LEADS = [("SSESat_lead_route.cfg", ("C01_OwnResponse", "C02_AnsweredOnOwnSession")), ("SSESat_lead_async.cfg", ("C03_NotificationCompletesFirst",)),
          ("SSESat_lead_noclose.cfg", ("C05_Terminates", "C01_CallsEndOnBreak", "temporal")), ("SSESat_lead_inject.cfg", ("C01_ErrorHasCause",))]
 IDEAL = ["SSESat_ideal_inject.cfg"]
@@ -63,6 +63,7 @@ CORNERS = [
     ("stray-post-after-close", "connect|s1 connect|s2 spost|s1 cclose|s1 spost|s1 spost|s2 sclose|s2 spost|s2"),
     ("stray-post-live", "connect|s1 ccall|s1|1 spost|s1 hret|s1|1 spost|s1"),
     ("post-held-across-close", "connect|s1 holdpost|s1 ccall|s1|1 sclose|s1 relpost|s1"),
+    ("posts-while-draining-client-gone", "connect|s1 ccall|s1|1 cut|s1|B spost|s1 spost|s1 spost|s1 spost|s1 hret|s1|1 spost|s1"),
     ("call-while-draining", "connect|s1 ccall|s1|1 sclose|s1 ccall|s1|2 cnote|s1|1 hret|s1|1"),
     ("call-while-client-gone", "connect|s1 connect|s2 ccall|s1|1 cut|s1|B ccall|s2|1 hret|s1|1 hret|s2|1"),
     # notifications hold the queue on both ends
@@ -324,7 +325,7 @@ def signature(clause, trows, upto, e):
     at-rest), what went wrong and the FIRST fault the scenario had injected on the session concerned (none if none) - no step
     numbers, tags or random values."""
     before = trows[:upto + 1]
-    s = e.get("s") or e.get("to") or ""
+    s = e.get("s") or e.get("to") or (e.get("key") or "").split(".")[0]
     ev = e.get("ev")
     name = clause.split(".", 1)[1]
     if ev in ("quiesce", "final") and e.get("blocked"):
@@ -412,7 +413,7 @@ def satellite(v, pid, tier, seed, replay_scn=None, design=True, prefixes=None):
             for cfg, w in MC[tier]:
                 jobs.append(("mc:" + cfg, w, (lambda c, w: lambda: vlib.run_tlc("SSESatMC", c, workers=w, timeout=1500,
                                                                                 heap_gb=6 if tier == "thorough" else 3,
-                                                                                coverage=(tier == "thorough" and c in ("SSESat_mc_q4.cfg", "SSESat_mc_t1.cfg", "SSESat_mc_q3.cfg"))))(cfg, w)))
+                                                                                coverage=(tier == "thorough" and c in ("SSESat_mc_q4.cfg", "SSESat_mc_t1.cfg", "SSESat_mc_q2.cfg", "SSESat_mc_q3.cfg", "SSESat_mc_t3.cfg"))))(cfg, w)))
             for cfg, _ in (LEADS if tier == "thorough" else LEADS[:1]):
                 jobs.append(("lead:" + cfg, 1, (lambda c: lambda: vlib.run_tlc("SSESatMC", c, workers=1, timeout=600, heap_gb=2))(cfg)))
             if tier == "thorough":
@@ -424,12 +425,12 @@ def satellite(v, pid, tier, seed, replay_scn=None, design=True, prefixes=None):
                     jobs.append(("wit:" + w, 1, (lambda w, txt: lambda: vlib.run_tlc(
                         "SSESatMC", "wit.cfg", workdir=vlib.scratch("tlc-"), workers=1, timeout=600, heap_gb=2,
                         extra_files={"wit.cfg": txt}))(w, txt)))
-        ths, results, errs = run_jobs(jobs, 4)
+        ths, results, errs = run_jobs(jobs, 2 if tier == "quick" else 3)   # never more than 4-5 TLC workers at once (shared machine)
         try:
-            nsim = 40 if tier == "quick" else 700
+            nsim = 40 if tier == "quick" else 500
             gths, gres, gerrs = run_jobs(
                 [("cov:" + c, 1, (lambda c: lambda: cover_paths(c, seed))(c)) for (c, _) in COVER[tier]] +
-                [("sim", 1, lambda: simulate("SSESat_gen.cfg", nsim, 110, seed))], 3 if tier == "quick" else 4)
+                [("sim", 1, lambda: simulate("SSESat_gen.cfg", nsim, 110, seed))], 2)
             [t.join() for t in gths]
             if gerrs:
                 raise gerrs[0]
@@ -458,7 +459,7 @@ def satellite(v, pid, tier, seed, replay_scn=None, design=True, prefixes=None):
             cov["simulated_scenarios"] = len(seen)
             for name, text in CORNERS:
                 rows.append(mk_scenario("corner-" + name, steps_of(text), seed))
-            for i in range(60 if tier == "quick" else 1800):
+            for i in range(60 if tier == "quick" else 1500):
                 rows.append(random_scenario(rnd, i, seed))
         except Exception:
             [t.join() for t in ths]
@@ -524,18 +525,21 @@ def satellite(v, pid, tier, seed, replay_scn=None, design=True, prefixes=None):
                 if not res.ok:
                     raise vlib.MachineryError("SSESat.tla violates %s on %s (a lead, not a verdict)\n%s" % (res.violation, name[3:], res.stdout[-1500:]))
                 for act, (dist, tot) in res.coverage.items():
-                    if act in INTERNAL_ACTIONS + ENV_ACTIONS:
+                    if act in INTERNAL_ACTIONS + ENV_ACTIONS + ["Internal"]:
                         dead[act] = dead.get(act, 0) + tot
             elif name.startswith("lead:"):
                 want = dict(LEADS)[name[5:]]
                 v.add_tlc(name[5:] + " (sensitivity: must fail)", res)
+                if res.violation is None and re.search(r"Temporal propert\w+ .*violated", res.stdout):
+                    res.violation = "temporal"
                 if res.violation not in want:
                     raise vlib.MachineryError("sensitivity: %s must violate one of %s but gave %s %s" % (name[5:], want, res.violation, res.error))
             elif name.startswith("wit:"):
                 if res.violation != name[4:]:
                     raise vlib.MachineryError("vacuity: witness %s not reachable (%s)" % (name[4:], res.error or res.violation))
         if tier == "thorough":
-            never = sorted(a for a, n in dead.items() if n == 0) + sorted(set(INTERNAL_ACTIONS + ENV_ACTIONS) - set(dead) - {"HoldStream", "RelStream", "HoldPost", "RelPost"})
+            never = sorted(a for a, n in dead.items() if n == 0) + sorted(set(INTERNAL_ACTIONS + ENV_ACTIONS) - set(dead) - {# quantified over a state-dependent set: TLC reports them under "Internal"
+                                                                "PostArrive", "PostPush", "PostBack", "SrvRespond", "CliRespond"})
             cov["dead_actions"] = never
             if never:
                 raise vlib.MachineryError("vacuity: actions of SSESat.tla never taken in any covered configuration: %s" % never)
